@@ -156,8 +156,12 @@ macro_rules! pair {
         pe!(u8);
         pe!(u64);
         pe!(B3);
-        pe!(A64);
-        pe!(TrA);
+        // (the over-aligned 32- and 64-byte elements only up to 1024 elements: larger by-value arrays of them overflow the
+        // stack of an unoptimised build - a limit of the harness, not of the crate)
+        if <$n>::USIZE * <$m>::USIZE <= 1024 {
+            pe!(A64);
+            pe!(TrA);
+        }
     }};
 }
 macro_rules! upair {
@@ -175,8 +179,12 @@ macro_rules! upair {
         pe!(u8);
         pe!(u64);
         pe!(B3);
-        pe!(A64);
-        pe!(TrA);
+        // (the over-aligned 32- and 64-byte elements only up to 1024 elements: larger by-value arrays of them overflow the
+        // stack of an unoptimised build - a limit of the harness, not of the crate)
+        if <$n>::USIZE * <$m>::USIZE <= 1024 {
+            pe!(A64);
+            pe!(TrA);
+        }
     }};
 }
 macro_rules! grid {
@@ -192,6 +200,25 @@ pub fn run(ctx: &mut Ctx) {
     pair!(ctx, U16, U64);
     pair!(ctx, U3, U100);
     pair!(ctx, U7, U9);
+    // products beyond 1024 elements (a size threshold is where an "optimised" large-array path would switch in)
+    pair!(ctx, U2, U1024);
+    pair!(ctx, U1024, U2);
+    pair!(ctx, U32, U33);
+    pair!(ctx, U33, U32);
+    pair!(ctx, U3, U1000);
+    pair!(ctx, U1000, U3);
+    pair!(ctx, U64, U64);
+    pair!(ctx, U1, U4096);
+    pair!(ctx, U4096, U1);
+    upair!(ctx, U2, U1024);
+    upair!(ctx, U1024, U2);
+    upair!(ctx, U32, U33);
+    upair!(ctx, U33, U32);
+    upair!(ctx, U3, U1000);
+    upair!(ctx, U1000, U3);
+    upair!(ctx, U64, U64);
+    upair!(ctx, U1, U4096);
+    upair!(ctx, U4096, U1);
     upair!(ctx, U1, U1024);
     upair!(ctx, U1024, U1);
     upair!(ctx, U16, U64);
